@@ -1055,7 +1055,10 @@ func (e *stageExec) do1(op []string) string {
 		e.oldLogged[name+"|"+e.realHash(tok)+"|"+unesc(op[2])] = t.Unix()
 		return "ok"
 	case len(op) == 1 && op[0] == "cleanwaiting":
-		e.gaveUp = true
+		// the cleaner may give the order up only when predecessor references among the held files form a cycle
+		if e.heldCycle() {
+			e.gaveUp = true
+		}
 		r.st.VerifCleanWaiting()
 		return "ok"
 	case len(op) == 1 && op[0] == "crash":
@@ -1315,6 +1318,39 @@ func (e *stageExec) scanFinal() {
 		}
 		return nil
 	})
+}
+
+// heldCycle: do the predecessor references of the files held in the staging area (validated, `.wait` on disk,
+// predecessor read from the companion) form a cycle?
+func (e *stageExec) heldCycle() bool {
+	prev := map[string]string{}
+	filepath.Walk(e.rig.root, func(p string, info os.FileInfo, err error) error {
+		if err != nil || info.IsDir() || !strings.HasSuffix(p, ".wait") {
+			return nil
+		}
+		base := strings.TrimSuffix(p, ".wait")
+		rel, _ := filepath.Rel(e.rig.root, base)
+		var c sts.Partial
+		if b, err := os.ReadFile(base + ".cmp"); err == nil && json.Unmarshal(b, &c) == nil {
+			prev[filepath.ToSlash(rel)] = filepath.ToSlash(c.Prev)
+		}
+		return nil
+	})
+	for start := range prev {
+		seen := map[string]bool{}
+		for n := start; ; {
+			p, held := prev[n]
+			if !held || p == "" {
+				break
+			}
+			if seen[p] || p == start {
+				return true
+			}
+			seen[p] = true
+			n = p
+		}
+	}
+	return false
 }
 
 // otherVersionSeen: a version of name other than tok arrived in this case. The receiver's cache is keyed by name:
